@@ -89,11 +89,11 @@ def docSvg (block : Bool) (c : CssBox) (cb : Cb) (cbh : Len) (cbContentX positio
   docImageI block c cb cbh cbContentX positionY i
 
 /-- The sizing step of `absolute_replaced(context, box, cb_x, cb_y, cb_width, cb_height)`
-(absolute.py): `inline_replaced_box_width_height(box, (cb_x, cb_y, cb_width, cb_height))`.
-`block_level_width` reads `containing_block[0]` of a tuple as the width of the containing block,
-which here is `cb_x` (mirrored as written; see `Witness/C13.lean`). -/
+(absolute.py): `inline_replaced_box_width_height(box, (cb_width, cb_height))`.
+`block_level_width` reads `containing_block[0]` of a tuple as the width of the containing block and
+takes the direction of a tuple to be `'ltr'`; `cb_x`, `cb_y`, `cb_height` play no part in the size. -/
 def absoluteReplacedWH (styleBothAuto : Bool) (i : Intr) (cbX cbY cbWidth cbHeight : Rat) (b : RBox) :
     Except Err RBox :=
-  inlineReplacedWH styleBothAuto i ⟨cbX, false⟩ b
+  inlineReplacedWH styleBothAuto i ⟨cbWidth, false⟩ b
 
 end Wp.Replaced
